@@ -60,8 +60,11 @@ Record config := mkConfig {
 
 Record message := mkMsg {
   m_sender_ok : bool;      (* sender address can be encoded for the wire *)
-  m_rcpts : list bool;     (* one entry per recipient: address can be encoded *)
+  m_rcpt_list : list (N * bool);  (* envelope.recipients in order: (address, can be encoded);
+                                     the same address may occur more than once *)
   m_eightbit : bool }.     (* body is not 7-bit (and no binary_encoder is configured) *)
+Definition m_rcpts (msg : message) : list bool := map snd (m_rcpt_list msg).
+Definition m_addrs (msg : message) : list N := map fst (m_rcpt_list msg).
 
 Inductive rclass := C2 | C3 | C4 | C5 | C500.
 Definition is_error (c : rclass) : bool :=      (* Reply.is_error *)
@@ -93,8 +96,13 @@ Definition read_reply (o : outcome) : rclass + abort :=
 
 (* what ends up in the AsyncResult of one request *)
 Inductive rres := Delivered | Failed (c : cls).   (* None / Reply  |  RelayError object *)
+(* the value the mapping holds for the address of one position of envelope.recipients *)
+Inductive tres :=
+| TDelivered                       (* None / Reply *)
+| TFailed (c : cls)                (* RelayError object *)
+| TMissing.                        (* the mapping has no such key *)
 Inductive mres :=
-| MMap (l : list rres)             (* result.set({rcpt: ...}) *)
+| MMap (l : list tres)             (* result.set({rcpt: ...}), read at every position of envelope.recipients *)
 | MExc (c : cls)                   (* result.set_exception(relay error) *)
 | MOther.                          (* result.set_exception(foreign exception) *)
 
@@ -161,6 +169,39 @@ Fixpoint lookup_code (l : list (stage * rclass)) (s : stage) : option rclass :=
   | [] => None
   | (k, c) :: l' => if stage_eqb k s then Some c else lookup_code l' s
   end.
+
+(* ---- a Python dict keyed by address (insertion ordered, one entry per key) ---- *)
+Section Dict.
+  Context {V : Type}.
+  Fixpoint dget (d : list (N * V)) (k : N) : option V :=
+    match d with
+    | [] => None
+    | (k0, v) :: d' => if k0 =? k then Some v else dget d' k
+    end.
+  (* d[k] = v : in place when the key exists, appended otherwise *)
+  Fixpoint dset (d : list (N * V)) (k : N) (v : V) : list (N * V) :=
+    match d with
+    | [] => [(k, v)]
+    | (k0, v0) :: d' => if k0 =? k then (k0, v) :: d' else (k0, v0) :: dset d' k v
+    end.
+  Definition apply_updates (d : list (N * V)) (ups : list (N * V)) : list (N * V) :=
+    fold_left (fun d p => dset d (fst p) (snd p)) ups d.
+End Dict.
+(* dict.fromkeys(recipients): first-occurrence order, de-duplicated, every value None *)
+Definition fromkeys (addrs : list N) : list (N * option tres) :=
+  fold_left (fun d a => match dget d a with Some _ => d | None => dset d a None end) addrs [].
+(* rcpt_results[addr] as the queue reads it: None and Reply both mean delivered *)
+Definition tget (d : list (N * option tres)) (a : N) : tres :=
+  match dget d a with
+  | Some (Some r) => r
+  | Some None => TDelivered
+  | None => TMissing
+  end.
+(* _send_envelope: `if rcpt_reply.is_error(): rcpt_results[rcpt] = factory(rcpt_reply)` per position *)
+Definition rcpt_updates (addrs : list N) (errs : list (option cls)) : list (N * option tres) :=
+  flat_map (fun p => match snd p with Some c => [(fst p, Some (TFailed c))] | None => [] end)
+           (combine addrs errs).
+Definition read_table (d : list (N * option tres)) (addrs : list N) : list tres := map (tget d) addrs.
 
 Section Client.
   Variable sc : script.
@@ -353,28 +394,28 @@ Section Client.
     if c_lmtp cfg then mret r
     else e <- is_error_of (Eod m 0) ;; if e then raise_factory (Eod m 0) else mret r.
   (* result.set_exception(e) / result.set(per recipient errors) of _deliver's except arm *)
-  Definition set_failure (m : N) (e : abort) : M unit :=
+  Definition set_failure (m : N) (msg : message) (e : abort) : M unit :=
     match e with
-    | ARelayRcpts _ l => set_result m (MMap (map Failed l))
+    | ARelayRcpts _ l =>     (* dict(zip(envelope.recipients, rcpt_errors)): the last occurrence wins *)
+        set_result m (MMap (read_table (apply_updates [] (combine (m_addrs msg) (map (fun c => Some (TFailed c)) l)))
+                                       (m_addrs msg)))
     | ARelay c => set_result m (MExc c)
     | _ => mret tt
     end.
-  Definition of_err (o : option cls) : rres :=
-    match o with Some c => Failed c | None => Delivered end.
-  (* LMTP: the data replies decide for the recipients that own one *)
-  Fixpoint lmtp_results (m i : N) (errs : list (option cls)) (owners : list N) : M (list rres * bool) :=
-    match errs with
+  (* LMTP: `for rcpt, reply in data_results: rcpt_results[rcpt] = factory(reply) | reply`, one data
+     reply per accepted RCPT occurrence, in order; owners are the positions that own a data reply *)
+  Fixpoint lmtp_data (m : N) (addrs : list N) (owners : list N) : M (list (N * option tres) * bool) :=
+    match owners with
     | [] => mret ([], false)
-    | o :: errs' =>
-        r <- lmtp_results m (i + 1) errs' owners ;;
-        if existsb (N.eqb i) owners then
-          c <- code_of (Eod m i) ;;
-          match c with
-          | None => mraise AForeign
-          | Some c => if is_error c then mret (Failed (factory c) :: fst r, true)
-                      else mret (Delivered :: fst r, snd r)
-          end
-        else mret (of_err o :: fst r, snd r)
+    | j :: ow =>
+        c <- code_of (Eod m j) ;;
+        match c, nth_error addrs (N.to_nat j) with
+        | Some c, Some a =>
+            r <- lmtp_data m addrs ow ;;
+            if is_error c then mret ((a, Some (TFailed (factory c))) :: fst r, true)
+            else mret ((a, Some TDelivered) :: fst r, snd r)
+        | _, _ => mraise AForeign
+        end
     end.
   Definition deliver (m : N) (msg : message) : M unit :=
     r <- mcatch (handle_encoding msg ;;;
@@ -382,15 +423,19 @@ Section Client.
                 owners <- send_message_data m ;;
                 mret (Some (errs, owners)))
                is_relay
-               (fun e => set_failure m e ;;; r_rset m ;;; mret None) ;;
+               (fun e => set_failure m msg e ;;; r_rset m ;;; mret None) ;;
     match r with
     | None => mret tt
     | Some (errs, owners) =>
+        let addrs := m_addrs msg in
+        (* rcpt_results = dict.fromkeys(recipients), then the RCPT errors by position *)
+        let ups := rcpt_updates addrs errs in
         if c_lmtp cfg then
-          lr <- lmtp_results m 0 errs owners ;;
-          set_result m (MMap (fst lr)) ;;;
-          if snd lr then r_rset m else mret tt
-        else set_result m (MMap (map of_err errs))
+          dr <- lmtp_data m addrs owners ;;
+          set_result m (MMap (read_table (apply_updates (fromkeys addrs) (ups ++ fst dr)) addrs)) ;;;
+          if snd dr then r_rset m else mret tt
+        else (* `if value is None: rcpt_results[key] = msg_result` is part of tget *)
+          set_result m (MMap (read_table (apply_updates (fromkeys addrs) ups) addrs))
     end.
   (* _check_server_timeout *)
   Definition check_server_timeout (m : N) : M bool :=
@@ -441,12 +486,14 @@ End Client.
 Inductive final := FDelivered | FPermanent | FTransient | FOther | FQueued | FNoResult.
 Definition of_cls (c : cls) : final := match c with Perm => FPermanent | Trans => FTransient end.
 Definition of_rres (r : rres) : final := match r with Delivered => FDelivered | Failed c => of_cls c end.
+Definition of_tres (r : tres) : final :=
+  match r with TDelivered => FDelivered | TFailed c => of_cls c | TMissing => FNoResult end.
 Definition final_of (r : option mres) (i : nat) : final :=
   match r with
   | None => FQueued                (* the request is (still / again) on the pool queue *)
   | Some (MExc c) => of_cls c
   | Some MOther => FOther
-  | Some (MMap l) => match nth_error l i with Some r => of_rres r | None => FNoResult end
+  | Some (MMap l) => match nth_error l i with Some r => of_tres r | None => FNoResult end
   end.
 Definition smtp_final (sc : script) (cfg : config) (msgs : list message) (m : N) (i : nat) : final :=
   final_of (lookup_res (results (run_client sc cfg msgs)) m) i.
